@@ -166,6 +166,8 @@ def run(repo: Repo, rep: Report, tier: str) -> None:
     _hc.report(repo, rep, "R10.9", _hc.get_config_contract(repo), "mashumaro.core.meta.code.builder::CodeBuilder.get_config")
     from ..core import helper_contracts as _hc2
     _hc2.report(repo, rep, "R09.6", _hc2.dataclass_fields_contract(repo), "mashumaro.core.meta.code.builder::CodeBuilder.dataclass_fields")
+    from ..core import siblings as _sib4
+    _sib4.check_special_primitive_mirror(repo, rep, "R11.10")
 
 REF_ORDER = ["metadata.get(serialization_strategy)", "B.dialect.serialization_strategy.get(ftype)", "B.get_config().dialect.serialization_strategy.get(ftype)",
              "B.get_config().serialization_strategy.get(ftype)", "B.default_dialect.serialization_strategy.get(ftype)"]
@@ -296,3 +298,6 @@ LEVEL_TEXT += _ADD2
 _ADD3 = " Borrowed: R09.6 (dataclass_fields: the nearest ancestor's Field wins; a bare re-annotation drops the inherited Field)."
 EXPLANATION += _ADD3
 LEVEL_TEXT += _ADD3
+_ADD17 = ' Borrowed: R11.10.'
+EXPLANATION += _ADD17
+LEVEL_TEXT += _ADD17
